@@ -406,7 +406,19 @@ def _stmt(p):
             return {"kind": "alter", "table": table, "action": "add_column", "column": str(col[1]).lower()}
         raise SqlError("unsupported ALTER TABLE action")
     x = p.peek()
-    if x[0] == "kw" and x[1] in ("UPDATE", "DELETE", "DROP", "PRAGMA", "BEGIN", "COMMIT", "ROLLBACK"):
+    # explicit transaction control: SAVEPOINT n / RELEASE [SAVEPOINT] n / ROLLBACK [TRANSACTION] [TO [SAVEPOINT] n] / END
+    if x[0] in ("id", "kw") and str(x[1]).upper() in ("SAVEPOINT", "RELEASE", "ROLLBACK", "END"):
+        word = str(x[1]).upper()
+        p.next()
+        rest = []
+        while p.peek()[0] != "eof":
+            rest.append(str(p.next()[1]).upper())
+        if word == "ROLLBACK" and "TO" in rest:
+            # rolls the work back but leaves the savepoint (and the transaction it started) open
+            return {"kind": "rollback_to", "table": None, "name": rest[-1].lower() if rest else None}
+        kind = {"SAVEPOINT": "savepoint", "RELEASE": "release", "ROLLBACK": "rollback", "END": "commit"}[word]
+        return {"kind": kind, "table": None, "name": rest[-1].lower() if rest and word in ("SAVEPOINT", "RELEASE") else None}
+    if x[0] == "kw" and x[1] in ("UPDATE", "DELETE", "DROP", "PRAGMA", "BEGIN", "COMMIT"):
         kind = x[1].lower()
         p.next()
         table = None
